@@ -54,9 +54,9 @@ type c18wsFollower struct {
 func c18wsScenarios(tier string) []*Scenario {
 	var scs []*Scenario
 	lines := 300
-	for _, mode := range []string{"all", "stall", "disconnect"} {
+	for _, mode := range []string{"all", "history", "stall", "disconnect"} {
 		for _, after := range []int{0, 3} {
-			if mode == "all" && after != 0 {
+			if (mode == "all" || mode == "history") && after != 0 {
 				continue
 			}
 			mode, after := mode, after
@@ -73,6 +73,14 @@ func c18wsScenarios(tier string) []*Scenario {
 				K: 0, EnvCost: 1, Idle: 30 * time.Second,
 			}
 			launched := func(w *World) bool { return len(w.procs) > 0 }
+			offset := 5
+			if mode == "history" {
+				// the follower arrives when the log already holds more lines than the handler's channel has
+				// slots and asks for all of them (the bundled client asks for its log length, 1000 by default)
+				sc.Procs["a"].Hold = nil
+				launched = func(w *World) bool { return len(w.procs) > 0 && w.procs[0].pc >= 2 }
+				offset = 1000
+			}
 			follower := APICall{Op: "fn", Name: "ws-follow:" + mode, When: launched, Fn: func(w *World) (string, error) {
 				f := &c18wsFollower{mode: mode}
 				w.Extra["ws"] = f
@@ -81,7 +89,7 @@ func c18wsScenarios(tier string) []*Scenario {
 				ln := &oneConnListener{conn: srvConn, done: make(chan struct{})}
 				srv := &http.Server{Handler: engine}
 				go srv.Serve(ln)
-				u, _ := url.Parse("ws://pc/process/logs/ws?name=a&offset=5&follow=true")
+				u, _ := url.Parse(fmt.Sprintf("ws://pc/process/logs/ws?name=a&offset=%d&follow=true", offset))
 				ws, _, err := websocket.NewClient(cliConn, u, nil, 1024, 1024)
 				if err != nil {
 					f.err = err.Error()
@@ -92,7 +100,7 @@ func c18wsScenarios(tier string) []*Scenario {
 				w.mu.Unlock()
 				n := 0
 				for {
-					if mode != "all" && n >= after {
+					if mode != "all" && mode != "history" && n >= after {
 						break
 					}
 					var m api.LogMessage
@@ -122,6 +130,11 @@ func c18wsScenarios(tier string) []*Scenario {
 				complete := len(log) >= lines+1
 				if w.Outcome != "completed" || !complete {
 					vs = append(vs, viol("C18", "follower-blocks:writer:"+mode, "with a websocket follower that %ss (after %d messages) the followed process did not finish writing its log: outcome %s, %d of %d lines in the log, blocked %v", mode, after, w.Outcome, len(log), lines+1, w.Blocked))
+				}
+				if f, ok := w.Extra["ws"].(*c18wsFollower); ok && mode == "history" {
+					if len(f.got) < lines+1 {
+						vs = append(vs, viol("C18", "history:ws-incomplete", "websocket follower asking for the last 1000 lines of a log of %d received %d messages (outcome %s, err %s, blocked %v)", lines+1, len(f.got), w.Outcome, f.err, w.Blocked))
+					}
 				}
 				if f, ok := w.Extra["ws"].(*c18wsFollower); ok && mode == "all" && w.Outcome == "completed" {
 					if len(f.got) < lines {
